@@ -445,6 +445,7 @@ func TestVerifC04(t *testing.T) {
 		return
 	}
 	thorough := vlib.Tier() == "thorough"
+	out.Note("C04: every case runs the real client transport, handleNewTCPConn, Proxy and a loopback echo covert; obfs4 only over net.Pipe (interactive handshake)")
 	nW := 12
 	jobs := make(chan c04Job, 256)
 	var wg sync.WaitGroup
@@ -475,6 +476,10 @@ func TestVerifC04(t *testing.T) {
 				}
 			}
 			for j := range jobs {
+				if c04Slow.Load() >= 24 {
+					out.Count("skipped-after-24-slow-cases")
+					continue
+				}
 				j.world = wi
 				if err := c04RunJob(out, w, clients, &j); err != nil {
 					errs <- fmt.Errorf("world %d client %d: %w", wi, j.client, err)
